@@ -456,6 +456,7 @@ func c12Headers(rc *RC, sutReceives bool) {
 	}
 	valid := cases[0].make
 	secondSent := false
+	hangUp := ch.Chance("script", 1, 2)
 	rc.Spawn("script", func() {
 		first := hc.make
 		if restartCase {
@@ -465,6 +466,10 @@ func c12Headers(rc *RC, sutReceives bool) {
 			// scripted initiator
 			io.WriteString(peerConn, first(origin.String(), "example.net"))
 			if !restartCase {
+				if hc.strErr && hangUp {
+					peerConn.Close()
+					rc.Fire("hang-up-after-stream-error")
+				}
 				return
 			}
 			wait("script:features", "urn:verif:r", 1)
@@ -495,6 +500,10 @@ func c12Headers(rc *RC, sutReceives bool) {
 			secondSent = true
 			io.WriteString(peerConn, hc.make(f, t))
 			decoy = ""
+			if hc.strErr && hangUp {
+				peerConn.Close()
+				rc.Fire("hang-up-after-stream-error")
+			}
 			return
 		}
 		// scripted receiver
@@ -505,6 +514,12 @@ func c12Headers(rc *RC, sutReceives bool) {
 		wait("script:hdr", hdrOpen, 1)
 		simrt.WaitUntil("script:hdrend", func() bool { return done || bytes.HasSuffix(out.Tap, []byte(">")) })
 		io.WriteString(peerConn, first("example.net", origin.String()))
+		if !restartCase && hc.strErr && hangUp {
+			// the peer hangs up right after its stream error: whatever the initiator still writes (its closing tag) fails
+			peerConn.Close()
+			rc.Fire("hang-up-after-stream-error")
+			return
+		}
 		if !restartCase {
 			if hc.accept {
 				io.WriteString(peerConn, featList("urn:verif:none"))
@@ -540,6 +555,11 @@ func c12Headers(rc *RC, sutReceives bool) {
 		secondSent = true
 		io.WriteString(peerConn, hc.make(f, t))
 		decoy = ""
+		if hc.strErr && hangUp {
+			peerConn.Close()
+			rc.Fire("hang-up-after-stream-error")
+			return
+		}
 		if hc.accept && changed == 0 {
 			io.WriteString(peerConn, featList("urn:verif:none"))
 		}
